@@ -202,69 +202,57 @@ def _variants_built(e, acc=None):
 
 def table_sample_rate(facts, orc):
     t = R("TABLE/sample-rate", "SampleRateSpec::from_freq -> tag / extra bits agree with RFC 9639 table 15")
-    ff, fb = ret_of(facts, DT + "SampleRateSpec::from_freq")
+    fb = body_by_suffix(facts, DT + "SampleRateSpec::from_freq")
     tag, tb = ret_of(facts, DT + "SampleRateSpec::tag")
     o = orc["sample_rate_codes"]
-    # the named-rate table is the innermost case tree of the or_else chain
-    inner = ff
-    chain = 0
-    while isinstance(inner, tuple) and inner[0] == "call" and re.search(r"Option::<.*>::or_else", inner[1]):
-        inner = inner[2][0]
-        chain += 1
-    if not (isinstance(inner, tuple) and inner[0] == "case"):
-        t.row(False, fb.id, "shape", "cannot find the named-rate table in from_freq: %s" % E.show(ff)[:200])
+    # from_freq is summarised as one closed case tree (Option / bool combinators, try_into, early returns all become
+    # cases) and evaluated row by row
+    ectx = E.Ctx(facts)
+    ectx.option_algebra = True
+    itp = E.Interp(ectx, fb)
+    itp.run()
+    ff = itp.retval
+    extra, _eb = ret_of(facts, DT + "SampleRateSpec::count_extra_bits")
+
+    def variant_of(rate):
+        v = E.evalv(ff, {1: rate}, facts)
+        if not (isinstance(v, tuple) and v[0] == "agg" and v[1] == "std::option::Option"):
+            return "?", None
+        return v[2], (v[3][0] if v[2] == "Some" else None)
+    probe = variant_of(44100)
+    if probe[0] == "?":
+        t.row(False, fb.id, "summary-not-evaluable", "the summary of from_freq cannot be evaluated for a concrete rate "
+              "(fail closed): %s" % E.show(ff)[:200])
         return [t.rr]
     for rate, code in sorted((int(k), v) for k, v in o["fixed"].items()):
-        v = E.evalv(inner, {1: rate}, facts)
-        var = v[3][0] if isinstance(v, tuple) and v[2] == "Some" else None
-        c = E.evalv(tag, {1: var}, facts)
+        _k, var = variant_of(rate)
+        c = E.evalv(tag, {1: var}, facts) if var is not None else None
         t.row(c == code, fb.id, "rate=%d" % rate, "sample rate %d Hz is coded %s (%s); RFC 9639 says %d"
               % (rate, c, agg_name(var), code), {"rate": rate, "code": c, "variant": agg_name(var)}, fb.loc())
-    v = E.evalv(inner, {1: 12345}, facts)
-    t.row(isinstance(v, tuple) and v[2] == "None", fb.id, "unnamed-rate-falls-through",
-          "an unnamed rate does not fall through to the generic encodings")
-    # generic encodings: closure k of from_freq divides by unit_k and builds variant_k; tag(variant_k) = code_k
+    # generic encodings: whatever form is chosen for an unnamed rate must represent it exactly (payload x unit = rate),
+    # carry the RFC's code and extra-bit width, and a rate no form can hold is refused
     want = {"KHz": o["khz_8bit"], "Hz": o["hz_16bit"], "DaHz": o["dahz_16bit"]}
-    found = {}
-    for cb in facts.closures_of(fb, recursive=True):
-        ctor = None
-        consts = set()
-        for _bi, t_ in cb.calls():
-            for a in t_["args"]:
-                if a.get("k") == "const" and "def" in a and a["def"].startswith(DT + "SampleRateSpec::"):
-                    ctor = a["def"].rsplit("::", 1)[1]
-        for _bi, _si, s in cb.iter_stmts():
-            if s["k"] == "assign" and s["rv"]["k"] == "bin" and s["rv"]["op"] in ("Div", "Rem"):
-                b_ = s["rv"]["b"]
-                if b_.get("k") == "const" and isinstance(b_.get("v"), int):
-                    consts.add((s["rv"]["op"], b_["v"]))
-        if ctor:
-            found.setdefault(ctor, set()).update(consts)
-    # units are found in the closure that builds the variant or in its parent closure (then/map nesting)
-    for cb in facts.closures_of(fb, recursive=False):
-        sub = facts.closures_of(cb, recursive=True)
-        ctors = set()
-        for x in [cb] + sub:
-            for _bi, t_ in x.calls():
-                for a in t_["args"]:
-                    if a.get("k") == "const" and "def" in a and a["def"].startswith(DT + "SampleRateSpec::"):
-                        ctors.add(a["def"].rsplit("::", 1)[1])
-        units = set()
-        for x in [cb] + sub:
-            for _bi, _si, s in x.iter_stmts():
-                if s["k"] == "assign" and s["rv"]["k"] == "bin" and s["rv"]["op"] in ("Div", "Rem"):
-                    b_ = s["rv"]["b"]
-                    if b_.get("k") == "const" and isinstance(b_.get("v"), int):
-                        units.add((s["rv"]["op"], b_["v"]))
-        for c in ctors:
-            found.setdefault(c, set()).update(units)
-    extra, _eb = ret_of(facts, DT + "SampleRateSpec::count_extra_bits")
+    limit = {"KHz": 255, "Hz": 65535, "DaHz": 65535}
+    seen_forms = set()
+    rates = [1, 7, 10, 999, 1000, 5000, 11025, 12340, 12345, 37800, 50000, 64000, 65535, 65536, 65540, 100000, 255000,
+             256000, 300000, 352800, 384000, 655350, 655351, 655360, 700001, 1000000, 4294967295]
+    for rate in rates:
+        kind, var = variant_of(rate)
+        representable = any(rate % w["unit"] == 0 and rate // w["unit"] <= limit[nm] for nm, w in want.items())
+        if kind == "None":
+            t.row(not representable, fb.id, "generic(%d)" % rate, "sample rate %d Hz is refused although the frame header can "
+                  "carry it" % rate, {"rate": rate, "form": None}, fb.loc())
+            continue
+        nm = var[2] if isinstance(var, tuple) and var[0] == "agg" else None
+        ok = nm in want and len(var[3]) == 1 and isinstance(var[3][0], int) \
+            and var[3][0] * want[nm]["unit"] == rate and 0 <= var[3][0] <= limit[nm]
+        seen_forms.add(nm)
+        t.row(ok, fb.id, "generic(%d)" % rate, "sample rate %d Hz is coded as %s: the value does not represent the rate in the "
+              "unit RFC 9639 gives that form" % (rate, agg_name(var) + str(var[3] if isinstance(var, tuple) else "")),
+              {"rate": rate, "form": nm}, fb.loc())
     for var, w in sorted(want.items()):
-        units = found.get(var)
-        exp = {("Div", w["unit"]), ("Rem", w["unit"])} if w["unit"] != 1 else set()
-        t.row(units is not None and units == exp, fb.id, "unit(%s)" % var,
-              "generic encoding %s uses divisors %s; RFC 9639 unit is %d" % (var, sorted(units or []), w["unit"]),
-              {"variant": var, "unit": w["unit"]}, fb.loc())
+        t.row(var in seen_forms, fb.id, "unit(%s)" % var, "the %s form (unit %d Hz) is never chosen on the probe rates"
+              % (var, w["unit"]), {"variant": var, "unit": w["unit"]}, fb.loc())
         val = ("agg", DT + "SampleRateSpec", var, (1,))
         c = E.evalv(tag, {1: val}, facts)
         xb = E.evalv(extra, {1: val}, facts)
